@@ -1,36 +1,15 @@
 import Ucan.Gen.ChainShell
-/-! Regenerated-code tie for the ORDER of the stages of `executionAllowed` (anchored by C01, C03, C04, C05), stated on the
-body of that one function alone: every method it calls is a parameter of this translation (`ChainShell`), so the theorem
-depends on no other function of the library and on no other tie. The proofs are loaded first and a loading error ends
-the check; then `verifyProofs`, then `verifyTimeBound`, then `verifyArgs`, each on the delegations that were loaded (and
-the arguments that were handed in); the first failing stage decides; nil only when all four return nil. What the
-stages themselves do is the subject of `ChainProofs`, `ChainTime` and `ChainArgs`; `ChainAllowed` composes them. -/
+/-! Regenerated-code tie for the shape of `executionAllowed` (anchored by C01, C03, C04, C05), stated on the body of that one
+function alone: every method it calls is a parameter of this translation (`ChainShell`), so the theorem depends on no other function
+of the library and on no other tie. It returns nil EXACTLY when the proofs load and each of the three checks returns nil on the
+delegations that were loaded (and the arguments that were handed in). Which error a refused invocation gets when several checks would
+fail — the order of the checks — is not part of any property and is not fixed here: the proof is a case analysis over the outcomes
+of the four calls and goes through for any order in which the body makes them (`ChainOrderExact` states the order the code has
+today; it is built by `setup` but belongs to no property). -/
 namespace Ucan.Tie
 open Ucan Ucan.GoM
 
 variable {D C S L A : Type} [DecidableEq D]
-
-theorem Inv_executionAllowed_order
-    (extLoad : Gen.InvTok D C A → L → GoM (List (Gen.DlgTok D S)))
-    (extProofs extTime : Gen.InvTok D C A → List (Gen.DlgTok D S) → GoM Unit)
-    (extArgs : Gen.InvTok D C A → List (Gen.DlgTok D S) → A → GoM Unit)
-    (g : Gen.InvTok D C A) (loader : L) (a : A) :
-    Gen.Inv_executionAllowed_shell extLoad extProofs extTime extArgs g loader a =
-      (extLoad g loader >>= fun ds =>
-        extProofs g ds >>= fun _ =>
-        extTime g ds >>= fun _ =>
-        extArgs g ds a) := by
-  unfold Gen.Inv_executionAllowed_shell
-  cases extLoad g loader with
-  | error e => rfl
-  | ok ds =>
-    simp only [bind, Except.bind, pure, Except.pure]
-    cases extProofs g ds with
-    | error e => rfl
-    | ok u =>
-      cases extTime g ds with
-      | error e => rfl
-      | ok u => cases extArgs g ds a <;> rfl
 
 /-- nil exactly when the proofs load and all three stages return nil on them -/
 theorem Inv_executionAllowed_ok_iff
@@ -40,16 +19,11 @@ theorem Inv_executionAllowed_ok_iff
     (g : Gen.InvTok D C A) (loader : L) (a : A) :
     Gen.Inv_executionAllowed_shell extLoad extProofs extTime extArgs g loader a = .ok () ↔
       ∃ ds, extLoad g loader = .ok ds ∧ extProofs g ds = .ok () ∧ extTime g ds = .ok () ∧ extArgs g ds a = .ok () := by
-  rw [Inv_executionAllowed_order]
+  unfold Gen.Inv_executionAllowed_shell
   cases hl : extLoad g loader with
   | error e => simp [bind, Except.bind]
   | ok ds =>
-    simp only [bind, Except.bind]
-    cases h1 : extProofs g ds with
-    | error e => simp [h1]
-    | ok u =>
-      cases h2 : extTime g ds with
-      | error e => simp [h1, h2]
-      | ok u => cases h3 : extArgs g ds a <;> simp [h1, h2, h3]
+    cases h1 : extProofs g ds <;> cases h2 : extTime g ds <;> cases h3 : extArgs g ds a <;>
+      simp [bind, Except.bind, pure, Except.pure, h1, h2, h3]
 
 end Ucan.Tie
